@@ -256,6 +256,21 @@ class Unit:
             self.own_dispose_fn(owner, e.args[0])
             return
         if isinstance(e, ast.Call) and isinstance(e.func, ast.Name) and e.func.id in CONTAINER_CTORS:
+            args = list(e.args)
+            if e.func.id == "CompositeDisposable":
+                # constructor contract (ctor.py): CompositeDisposable(a, b, ...) holds a, b, ...; CompositeDisposable([a, b]) holds a, b; but when
+                # the FIRST argument is a list, that list is the whole content - whatever follows it is ignored (and so owned by nobody)
+                if len(args) == 1 and isinstance(args[0], ast.Starred):
+                    tup = self.tuple_of(args[0].value)
+                    if tup is not None:
+                        args = list(tup)
+                if len(args) >= 2 and self.may_be_list(args[0]):
+                    self.own_expr(owner, args[0])
+                    return
+                if len(e.args) == 1 and isinstance(e.args[0], ast.Starred) and self.tuple_of(e.args[0].value) is not None:
+                    for a in args:
+                        self.own_expr(owner, a)
+                    return
             for a in e.args:
                 self.own_expr(owner, a)
             return
@@ -279,6 +294,39 @@ class Unit:
         n = self.name_of(e)
         if n:
             self.own(owner, n)
+
+    def tuple_of(self, v):
+        """the element expressions when v is a tuple / list display, or a call of a local helper every return of which is a tuple display"""
+        if isinstance(v, (ast.Tuple, ast.List)):
+            return list(v.elts)
+        if self.is_local_call(v):
+            f = self.local_fns.get(v.func.id)
+            rets = [n for n in ast.walk(f) if isinstance(n, ast.Return) and n.value is not None and self.enclosing_fn(n) is f] if f is not None else []
+            if rets and all(isinstance(r.value, ast.Tuple) for r in rets) and len({len(r.value.elts) for r in rets}) == 1:
+                return list(rets[0].value.elts)
+        return None
+
+    def may_be_list(self, v, depth=0):
+        if isinstance(v, (ast.List, ast.ListComp)):
+            return True
+        if isinstance(v, ast.BinOp) and isinstance(v.op, ast.Add):
+            return self.may_be_list(v.left, depth) or self.may_be_list(v.right, depth)
+        if isinstance(v, ast.Call) and isinstance(v.func, ast.Name) and v.func.id in ("list", "sorted"):
+            return True
+        if isinstance(v, ast.Name) and depth < 3:
+            f = self.enclosing_fn(v) or self.fn
+            for n in ast.walk(f):
+                val = None
+                if isinstance(n, ast.Assign) and any(isinstance(t, ast.Name) and t.id == v.id for t in n.targets):
+                    val = n.value
+                elif isinstance(n, ast.AnnAssign) and isinstance(n.target, ast.Name) and n.target.id == v.id:
+                    val = n.value
+                    ann = ast.unparse(n.annotation) if n.annotation is not None else ""
+                    if ann.startswith(("list", "List")):
+                        return True
+                if val is not None and self.may_be_list(val, depth + 1):
+                    return True
+        return False
 
     def owned_set(self):
         seen, work = set(), [ROOT]
